@@ -44,6 +44,7 @@ struct VarIntLess {
     static int prio(const int& e) { return e; }
     static int id(const int&) { return -1; }
     static bool before(int a, int b) { return a < b; }
+    static bool intact(const int&) { return true; }
 };
 struct VarIntGreater : VarIntLess {
     typedef std::greater<int> compare;
@@ -60,6 +61,7 @@ struct VarItem {
     static Item make(int prio, int id) { return Item{ prio, id }; }
     static int prio(const Item& e) { return e.prio; }
     static int id(const Item& e) { return e.id; }
+    static bool intact(const Item&) { return true; }
     static bool before(int a, int b) { return a < b; }
 };
 struct TrackedCmp { bool operator()(const Tracked& a, const Tracked& b) const { return a.key > b.key; } };
@@ -71,6 +73,7 @@ struct VarTracked {
     static Tracked make(int prio, int id) { return Tracked(prio, id); }
     static int prio(const Tracked& e) { return e.key; }
     static int id(const Tracked& e) { return e.payload; }
+    static bool intact(const Tracked& e) { return e.heap && *e.heap == e.key; }
     static bool before(int a, int b) { return a > b; }
 };
 
@@ -107,6 +110,7 @@ struct DAryDriver {
             const K& t = ch.top();
             if (V::prio(t) != best()) bad("top-not-minimal", std::string(after) + ": top priority " + std::to_string(V::prio(t)) + ", best stored " + std::to_string(best()));
             if (find(V::prio(t), V::id(t)) == model.size()) bad("top-not-a-member", after);
+            if (!V::intact(t)) bad("top-is-a-moved-from-object", after);
         }
         if (!h->sanity_check()) bad("sanity_check", after);
         if (V::tracked) {
@@ -142,7 +146,16 @@ struct DAryDriver {
     void op() {
         ++g_ops;
         unsigned r = (unsigned)rng.below(100);
-        if (r < 45) {
+        if (r < 4 && !model.empty()) {
+            // the argument refers into the heap itself: push(heap.top())
+            int p = V::prio(h->top()), id = V::id(h->top());
+            trace.push_back("push(top())");
+            h->push(h->top());
+            model.push_back({ p, id });
+            check("push(top())");
+            verif::count("dary_push_argument_inside_heap");
+        }
+        else if (r < 45) {
             int p = new_prio(), id = next_id++;
             if (rng.coin()) { K e = V::make(p, id); h->push(e); trace.push_back("push(" + std::to_string(p) + ")"); }
             else { h->push(V::make(p, id)); trace.push_back("push(&&" + std::to_string(p) + ")"); }
